@@ -111,13 +111,17 @@ def check(ctx):
     m1.caught("SwSubOrder", "C14_quick.cfg")
     traces = traces_for(ctx.seed, ctx.pick(900, 9000), ctx.pick(10, 16))
     bad, ms = judge(ctx, "Mon_C14", traces, "subscriber histories", payload)
+    from .common import spec_to_code
+    sim = spec_to_code(ctx, {"Inputs": "C14_Inputs", "Match": "<<>>", "Cfg": "[C14_A EXCEPT !.maxId = 65535]", "Sw": "AllOff",
+                             "MaxEv": 7, "MaxIdle": 3, "MaxPerPoll": 2},
+                       ctx.pick(25, 400), 90, lambda sched: run_schedule(sched, "R"), "Mon_C14", mon_cfg("R"))
     acc = total = 0
     for var in "RSF":
         a, t, _ = conformance(ctx, "SDTrace", spec_consts(var), [tr for tr in traces if tr["var"] == var][: ctx.pick(40, 300)])
         acc += a
         total += t
     cov = dict(states=m1.states, transitions=m1.trans, traces_validated_against_impl=acc, monitor_traces=len(traces),
-               monitor_failures=bad, monitor_states=ms, conformance_traces=total, spec_drift=total - acc, tlc_runs=m1.runs,
+               monitor_failures=bad, monitor_states=ms, conformance_traces=total, spec_drift=total - acc, tlc_runs=m1.runs, **sim,
                exhaustive=False,
                samples=[{"variant": traces[0]["var"], "schedule": traces[0]["sched"][:8], "trace": traces[0]["ev"][:16]}],
                rule="TLC: ServiceSubscriber of SD.tla (list, alive flag, deferred sends, refresh task with its hop structure) x "
